@@ -280,7 +280,7 @@ TOKEN_R = "⟧"
 
 def _token(s: SymReal) -> str:
     for k, v in CTX.tokens.items():
-        if v is s:
+        if v is s or v.t.eq(s.t):
             return k
     k = f"{TOKEN_L}{len(CTX.tokens)}{TOKEN_R}"
     CTX.tokens[k] = s
